@@ -10,10 +10,16 @@ PROVED: (1) the truncation keeps every infinite-crowding member whenever their n
 (`take_keeps_top`), hence (2) the boundary clause for any metric whose infinite values mark a
 min-holder and a max-holder of each objective and number at most k (`boundary_retained`), with the
 count bound for the crowding distance (`cdSorted_top_count`); (3) cd/ce: the dropped are the
-members of smallest value computed once (`dropped_smallest`). NOT PROVED (`…_partial`): the
-equivalence of the kernels' n_remove − 1 internal removals plus the final sort with greedy pruning of
-n_remove points — it needs monotonicity of the metrics under removal; it is checked against an
-independent greedy reference on every tie-free split front of the correspondence run.
+members of smallest value computed once (`dropped_smallest`). (4) in `C15b.lean`, for the mnn / 2nn
+*definition* (= pure-Python engine): removing a point never decreases another point's crowding
+(`nnProduct_mono`, via monotonicity of order statistics `sort_mono`), hence throughout the removal
+loop every pruned point's value stays ≤ every live point's value (`mnnFallback_stale_le_live`), and
+therefore the descending sort followed by the cut drops the pruned points first
+(`truncation_drops_removed`) and then the live points of smallest current value
+(`dropped_smallest`) — exactly one-at-a-time pruning when no compared values are equal.
+NOT PROVED (`…_partial`): the same for pcd, and the refinement of the *compiled* incremental kernels
+to the definitions; both are checked against an independent greedy reference on every tie-free
+split front of the correspondence run, in both engines.
 -/
 import PymoodeProofs.C13
 import Mathlib.Data.List.Count
